@@ -144,10 +144,15 @@ func c13population(r *core.Recorder, p c13pop) {
 	}
 	storingShard := -1
 	trigKey := c13key(p.ID, p.N) // a new key
+	if p.Trigger == "overwrite" {
+		// the store that finds the cache at its limit replaces an entry that is already cached (the most recently
+		// used one, so that it is not an eviction candidate itself)
+		trigKey = c13key(p.ID, idx[len(idx)-1])
+	}
 	switch p.Trigger {
 	case "cycle":
 		c.VerifRunCleanupCycle()
-	case "store":
+	case "store", "overwrite":
 		storingShard = cache.VerifShardIndex(trigKey, p.Shards)
 		e, err := c.Cache(trigKey, strings.NewReader(string(rig.Body(p.N, 1, p.Size))), future, rig.Obj{K: p.N, V: 1})
 		if err == nil {
@@ -164,7 +169,11 @@ func c13population(r *core.Recorder, p c13pop) {
 			if cur <= target {
 				break
 			}
-			if p.Trigger == "store" && p.Backend == "memory" && cache.VerifShardIndex(c13key(p.ID, i), p.Shards) == storingShard {
+			if p.Trigger == "overwrite" && i == idx[len(idx)-1] {
+				exempt[i] = true // the entry being replaced: its own key lock is held by the store
+				continue
+			}
+			if (p.Trigger == "store" || p.Trigger == "overwrite") && p.Backend == "memory" && cache.VerifShardIndex(c13key(p.ID, i), p.Shards) == storingShard {
 				exempt[i] = true // shares the lock held by the store that triggered the eviction
 				continue
 			}
@@ -486,7 +495,7 @@ func c13Run(b core.Batch, r *core.Recorder) {
 			if p.Limit < 1 {
 				p.Limit = 1
 			}
-			p.Trigger = []string{"cycle", "store"}[(i/4)%2]
+			p.Trigger = []string{"cycle", "store", "overwrite"}[(i/4)%3]
 			if !r.Case(p.ID, p) {
 				continue
 			}
@@ -549,7 +558,7 @@ func init() {
 	core.Register(&core.Monitor{
 		ID:    "C13",
 		Level: "exploration",
-		Rule: "eviction: populations of n equal-size entries (all access permutations for n in {3,4}, seeded random n in 5..34 with a random partial re-access order), limit in {T-1, T, T+1, T/2, 3T/4, 2T} set by the constructor, changed at run time, or changed six times back to back (the last value must govern; also under GOMAXPROCS=1, where the notification goroutines run in the other order), shards in {1,2,3,16,1024}, trigger = synchronous cleanup cycle or a store, both backends; the surviving set must equal the model (nothing below the limit; at or above it the minimal LRU prefix reaching 80 %, same-shard keys exempt on the memory store path); a size-weight case (2.5 MiB vs 100 B); " +
+		Rule: "eviction: populations of n equal-size entries (all access permutations for n in {3,4}, seeded random n in 5..34 with a random partial re-access order), limit in {T-1, T, T+1, T/2, 3T/4, 2T} set by the constructor, changed at run time, or changed six times back to back (the last value must govern; also under GOMAXPROCS=1, where the notification goroutines run in the other order), shards in {1,2,3,16,1024}, trigger = synchronous cleanup cycle, a store of a new key, or a store that overwrites the most recently used cached key, both backends; the surviving set must equal the model (nothing below the limit; at or above it the minimal LRU prefix reaching 80 %, same-shard keys exempt on the memory store path); a size-weight case (2.5 MiB vs 100 B); " +
 			"expiry: n in {1,3,10,40} entries with expiry -1 h / +1 h, one cycle removes exactly the expired; variant with a fresh overwrite of an expired key injected between scan and removal; interval: 1 h -> 2 ms -> 1 h on the real ticker with hook barriers. Access pairs closer than 2 ms are not judged. Non-trivial = distinct population / expiry / interval case.",
 		Assumptions: []string{"LastAccess has wall-clock ms resolution inside the implementation; the harness spaces accesses by 3 ms and does not judge pairs whose recorded windows are closer than 2 ms", "keys sharing the storing key's lock shard are exempt on the memory backend's store-triggered path, as the statement allows"},
 		Plan:        c13Plan,
